@@ -40,6 +40,7 @@ Theorem grpc_error_roundtrip : forall (headers trailer : hmap) (e : err D),
     forall k, ~ reserved_grpc k ->
       values k (e_meta e') = values k headers ++ values k trailer ++ values k (e_meta e).
 Proof. exact (grpc_error_roundtrip_lemma D status_marshal status_unmarshal status_roundtrip). Qed.
+Print Assumptions grpc_error_roundtrip.
 
 (* unary Connect: a failed call always has a 4xx/5xx status, never 2xx *)
 Theorem connect_unary_error_roundtrip : forall header trailer (e : err D),
@@ -52,6 +53,7 @@ Theorem connect_unary_error_roundtrip : forall header trailer (e : err D),
     e_code e' = e_code e /\ e_msg e' = e_msg e /\ e_details e' = e_details e /\
     forall k, values k (e_meta e') = values k header ++ values k (e_meta e) ++ values k trailer.
 Proof. exact (connect_unary_error_roundtrip_lemma D wire_marshal wire_unmarshal wire_roundtrip). Qed.
+Print Assumptions connect_unary_error_roundtrip.
 
 (* Connect streaming: the end-of-stream envelope *)
 Theorem connect_stream_error_roundtrip : forall headers trailer (e : err D),
@@ -61,6 +63,7 @@ Theorem connect_stream_error_roundtrip : forall headers trailer (e : err D),
     e_code e' = e_code e /\ e_msg e' = e_msg e /\ e_details e' = e_details e /\
     forall k, values k (e_meta e') = values k headers ++ values k trailer ++ values k (e_meta e).
 Proof. exact (connect_stream_error_roundtrip_lemma D end_marshal end_unmarshal end_roundtrip). Qed.
+Print Assumptions connect_stream_error_roundtrip.
 End C02.
 Print Assumptions grpc_error_roundtrip.
 Print Assumptions connect_unary_error_roundtrip.
@@ -70,6 +73,7 @@ Print Assumptions connect_stream_error_roundtrip.
 Theorem plain_error_is_unknown : forall (D : Type) (text : bytes),
   e_code (wrap_uncoded D text) = 2 /\ e_msg (wrap_uncoded D text) = text.
 Proof. intros. split; reflexivity. Qed.
+Print Assumptions plain_error_is_unknown.
 
 (* the hypotheses are satisfiable (toy serialisations) and the 16 codes meet the side conditions *)
 Example codes_meet_side_conditions :
